@@ -23,9 +23,15 @@ def modelled : List String := [
   "ff.Element.ToBigIntRegular",
   "ff.Element.setBigInt",
   "utils.NewIntFromString",
+  "tree.<layout>@babyjub",
+  "tree.<layout>@constants",
+  "tree.<layout>@ff",
+  "tree.<layout>@root",
+  "tree.<layout>@utils",
   "babyjub.<decls>@babyjub.go",
   "babyjub.<decls>@eddsa.go",
   "babyjub.<decls>@helpers.go",
+  "constants.<decls>@constants.go",
   "ff.<asm>@element_mul_adx_amd64.s",
   "ff.<asm>@element_mul_amd64.s",
   "ff.<asm>@element_ops_amd64.s",
@@ -41,9 +47,9 @@ def modelled : List String := [
 
 theorem source_pinned : modelled.all (same I3.Gen.fingerprints) = true := by decide +kernel
 
-theorem function_set_pinned : (["babyjub.", "ff.", "utils."] : List String).all (sameKeys I3.Gen.fingerprints) = true := by
+theorem function_set_pinned : (["babyjub.", "constants.", "ff.", "utils."] : List String).all (sameKeys I3.Gen.fingerprints) = true := by
   decide +kernel
 
-theorem modelled_nonempty : 28 = modelled.length := by decide
+theorem modelled_nonempty : 34 = modelled.length := by decide
 
 end I3.Props.C04
